@@ -989,11 +989,9 @@ pub fn block_roundtrip(restart_interval: usize, entries: &[(Vec<u8>, u64, bool, 
     let mut b: crate::tables::BlockBuilderForVerif = crate::tables::new_block_builder_for_verif(restart_interval);
     if reuse {
         // the earlier block ends with the very key the next block starts with (as much shared prefix as there can be)
-        b.add_entry(std::rc::Rc::new(InternalKey::new(b"earlier-block".to_vec(), 7, op(true))), b"earlier value");
-        if let Some(e) = entries.first() {
-            if e.0.as_slice() > b"earlier-block".as_slice() {
-                b.add_entry(std::rc::Rc::new(InternalKey::new(e.0.clone(), e.1, op(e.2))), b"x");
-            }
+        match entries.first() {
+            Some(e) => b.add_entry(std::rc::Rc::new(InternalKey::new(e.0.clone(), e.1, op(e.2))), b"earlier value"),
+            None => b.add_entry(std::rc::Rc::new(InternalKey::new(b"earlier-block".to_vec(), 7, op(true))), b"earlier value"),
         }
         let _ = b.finalize();
         b.reset();
